@@ -63,7 +63,10 @@ Lemma scR_nth (l : valueR) : scR l = nth 0 l 0.
 Proof. destruct l; reflexivity. Qed.
 
 Lemma vzero_nth (v : varR) j : nth j (vzero Rops v) 0 = 0.
-Proof. unfold vzero. destruct (v_kind v); destruct j as [|[|[|[|[|j]]]]]; reflexivity. Qed.
+Proof.
+  unfold vzero. destruct (v_kind v) as [| | | |n]; try (destruct j as [|[|[|[|[|j]]]]]; reflexivity).
+  change (n0 Rops) with 0. revert j. induction n as [|n IH]; intros j; destruct j; cbn [repeat nth]; auto.
+Qed.
 
 Lemma fzero_nth (vs : list varR) k j : nth j (fzero Rops vs k) 0 = 0.
 Proof. unfold fzero. destruct (nth_error vs k); [apply vzero_nth|destruct j; reflexivity]. Qed.
